@@ -464,13 +464,14 @@ func C02(c *core.Ctx) {
 		interest := findL3(poi, poi.Params[1], "Interest")
 		sends := core.FindCallsDeep(poi, idSendPacket)
 		c.Floor("R2.4", "SendPacket in processOutgoingInterest", len(sends), 1)
+		restorePoi := core.WithRoot(poi)
 		for _, ci := range sends {
 			recv, _ := core.CallArgs(ci.Common())
 			// face is GetFace(nexthop)
 			okFace := false
-			if cl, isC := core.Strip(recv).(*ssa.Call); isC {
+			if cl, isC := core.Resolve(recv).(*ssa.Call); isC {
 				if _, isG := core.IsCall(cl, idGetFace); isG {
-					okFace = cl.Call.Args[0] == ssa.Value(poi.Params[3])
+					okFace = core.Same(cl.Call.Args[0], poi.Params[3])
 				}
 			}
 			c.Decide(okFace, "R2.4", "out-face-is-nexthop", c.Pos(ci), "the Interest is sent on GetFace(nexthop)", "the Interest is sent on a face other than GetFace(nexthop): "+describeFaceValue(recv))
@@ -539,9 +540,10 @@ func C02(c *core.Ctx) {
 				fr := core.MustFollowDeep(poi, core.After(or), func(in ssa.Instruction) bool { return in == ssa.Instruction(ci) }, nil)
 				c.Decide(fr.OK, "R2.4", "send-after-out-record", c.Pos(or), "every path from InsertOutRecord reaches the send", "an out-record can be inserted without the Interest being sent")
 				_, oargs := core.CallArgs(or.Common())
-				c.Decide(len(oargs) == 2 && oargs[1] == ssa.Value(poi.Params[3]), "R2.4", "out-record-face", c.Pos(or), "out-record is keyed by nexthop", "out-record is keyed by a face other than nexthop")
+				c.Decide(len(oargs) == 2 && core.Same(oargs[1], poi.Params[3]), "R2.4", "out-record-face", c.Pos(or), "out-record is keyed by nexthop", "out-record is keyed by a face other than nexthop")
 			}
 		}
+		restorePoi()
 	}
 
 	// R2.5: strategies.
